@@ -1103,16 +1103,22 @@ def op_evolve(w, s):
         if method == "tdrk4" and int(m) >= max(src.bond_dims_exact[1:] + [1]):
             bound = (2 if imag else 1) * 6.0 * x ** 5 / 120 + 2e-9
         elif method == "ps" and full:
-            bound = 1e-8 if split_exact else PS_ORDER_CONST * x ** 3 + 1e-8
+            # away from the exactness condition: second-order splitting; the constant grows with the number of split terms (nodes)
+            cps = max(PS_ORDER_CONST, 0.15 * len(src.node_list))
+            bound = 1e-8 if split_exact else cps * x ** 3 + 1e-8
             key += ":exact" if split_exact else ":order"
         elif method == "ps2" and full and int(m) >= max(src.bond_dims[1:]):
-            bound = 1e-8 if split_exact else PS_ORDER_CONST * x ** 3 + 1e-8
+            cps = max(PS_ORDER_CONST, 0.15 * len(src.node_list))
+            bound = 1e-8 if split_exact else cps * x ** 3 + 1e-8
             key += ":exact" if split_exact else ":order"
         elif method == "vmf" and full:
             sv_ok = _well_conditioned(w, e)
             # (the ODE integrator has an absolute tolerance on the raw tensors: states of ordinary magnitude only)
             if sv_ok and 1e-2 <= float(np.linalg.norm(t_before)) <= 1e2:
-                bound = 20 * ec.ivp_rtol * max(x, 0.05) + 20 * ec.ivp_atol + 3 * np.sqrt(ec.reg_epsilon)
+                # (errors of the ODE integrator are amplified by the inverse of the smallest kept Schmidt value: the mean-field equations
+                # contain the inverse overlap / reduced density matrix)
+                amp = max(1.0, 0.5 / max(_min_schmidt_ratio(w, e), 1e-3))
+                bound = (20 * ec.ivp_rtol * max(x, 0.05) + 20 * ec.ivp_atol + 3 * np.sqrt(ec.reg_epsilon)) * amp
         if bound is not None:
             w.stats.ratio("C12.layer2:" + key, err, bound)
             if err > bound and not CALIBRATE:
@@ -1130,6 +1136,26 @@ def op_evolve(w, s):
         if abs(e1 - e0) > 1e-8 * max(hn, 1e-300):
             raise V({"C12"}, "C12.ps.energy", f"tree one-site TDVP-PS changed the energy {e0!r} -> {e1!r}")
     return "done"
+
+
+def _min_schmidt_ratio(w, e):
+    """smallest (kept singular value / largest) over all edges; 0.0 for redundant bonds"""
+    tn = e.obj
+    dims = [b.nbas for b in w.basis_objs]
+    psi = e.shadow.reshape(dims)
+    worst = 1.0
+    for node in tn.node_list[1:]:
+        sub = _subtree_ref_indices(node, tn, w.ref_index)
+        if not sub or len(sub) == w.nref:
+            continue
+        rest = [k for k in range(w.nref) if k not in sub]
+        sv = scipy.linalg.svdvals(psi.transpose(sub + rest).reshape(int(np.prod([dims[k] for k in sub])), -1))
+        k = np.asarray(node.tensor).shape[-1]
+        if k > len(sv):
+            return 0.0
+        if k and sv[0] > 0:
+            worst = min(worst, float(sv[k - 1] / sv[0]))
+    return worst
 
 
 def _well_conditioned(w, e):
